@@ -124,9 +124,11 @@ pub struct InstCache {
 }
 impl InstCache {
     pub fn get(&mut self, v: &Val, n: usize) -> Rc<Result<Instance, String>> { self.get_with(v, n, &[]) }
-    pub fn get_with(&mut self, v: &Val, n: usize, empty: &[String]) -> Rc<Result<Instance, String>> {
+    pub fn get_with(&mut self, v: &Val, n: usize, empty: &[String]) -> Rc<Result<Instance, String>> { self.get_sized(v, n, empty, &BTreeMap::new()) }
+    pub fn get_sized(&mut self, v: &Val, n: usize, empty: &[String], sizes: &BTreeMap<String, usize>) -> Rc<Result<Instance, String>> {
         let mut ctx = render::Ctx::new(n);
         ctx.empty = empty.to_vec();
+        ctx.sizes = sizes.clone();
         let ts = render::render(v, &mut ctx);
         let text = ts.to_string();
         self.rendered += 1;
@@ -140,6 +142,20 @@ impl InstCache {
         self.map.insert(text, r.clone());
         r
     }
+}
+
+/// element counts implied by the size atoms of a path: `?len(C)<=k` true -> k (k>=1), false -> k+1
+pub fn sizes(cond: &BTreeMap<String, bool>) -> BTreeMap<String, usize> {
+    let mut m: BTreeMap<String, (usize, usize)> = BTreeMap::new(); // coll -> (min, max)
+    for (a, b) in cond {
+        let Some(rest) = a.strip_prefix("?len(") else { continue };
+        let Some(i) = rest.find(")<=") else { continue };
+        let coll = rest[..i].to_string();
+        let Ok(k) = rest[i + 3..].parse::<usize>() else { continue };
+        let e = m.entry(coll).or_insert((0, usize::MAX));
+        if *b { e.1 = e.1.min(k); } else { e.0 = e.0.max(k + 1); }
+    }
+    m.into_iter().map(|(c, (lo, hi))| (c, if hi == usize::MAX { lo.max(2) } else { hi.max(lo) })).collect()
 }
 
 /// collections that are empty on this path (from emptiness atoms)
